@@ -316,3 +316,89 @@ Proof.
   split; [exists (ConnWritersDefs.creq_ty true ex_conn_produce); split; vm_compute; reflexivity|].
   split; vm_compute; [reflexivity|]. split; reflexivity.
 Qed.
+
+(* ======================================================================================
+   The response direction of the hand-written Conn codec (read.go, the readFrom() methods of
+   the response structs, the reflective read(), the inline readers of conn.go): "every
+   well-formed response for that version decodes to exactly the field values the broker
+   encoded and consumes exactly one frame".  Model/Legacy.v has the reader combinators of
+   read.go and the reflective reader [read_ty] over a grammar descriptor, Model/ConnOps.v the
+   response grammar of every (operation, version) ([resp_ty]) and the inline readers
+   (produce_read, listoffsets_read, fetch_header, apiversions_read: their decoding theorems are
+   C11_* over Proofs/ConnOpsAll.v), Model/ConnReaders.v the table reader -> grammar and the two
+   consumer-group blobs that are not in protocol/ (ConsumerProtocolSubscription /
+   ConsumerProtocolAssignment v0, read by groupMetadata.readFrom and groupAssignment.readFrom ->
+   readMapStringInt32).
+   ====================================================================================== *)
+From KV Require Model.Legacy Model.ConnOps Model.ConnReaders Proofs.ConnOpsCodec Proofs.ConnReadersProofs.
+
+(* the Legacy reader on the reference encoding of a well-typed wire value returns that value
+   (null string / bytes / array read as empty) and consumes exactly the encoding, whatever
+   follows in the stream: for every grammar descriptor, hence for every response struct the Conn
+   reads with readFrom() / read() *)
+Theorem C04_conn_response_roundtrip : forall t w, Legacy.wt t w -> forall sz rest,
+  (Z.of_nat (length (Legacy.enc t w)) <= sz)%Z ->
+  Legacy.read_ty t sz (Legacy.enc t w ++ rest)
+  = (inl (Legacy.dec_val t w), (sz - Z.of_nat (length (Legacy.enc t w)))%Z, rest).
+Proof. exact ConnOpsCodec.read_ty_enc. Qed.
+Print Assumptions C04_conn_response_roundtrip.
+
+(* the Conn's response grammar for every (operation, version) it reads — 29 pairs — IS the
+   response schema the translator regenerates from /repo's protocol package for that api key
+   and version, read as a Legacy descriptor ([legacy_of]: nullable flags and element sizes
+   dropped, RECORDS as BYTES; none of these versions is flexible) *)
+Theorem C04_conn_response_grammar_generated : forall a v,
+  In (a, v) ConnReadersProofs.conn_responses ->
+  exists t, lookup_schema schemas true (ConnReadersProofs.key_of a) (Z.of_N v) = Some (false, t) /\
+            ConnReadersProofs.legacy_of t = ConnOps.resp_ty a v.
+Proof. exact ConnReadersProofs.resp_ty_is_generated. Qed.
+Print Assumptions C04_conn_response_grammar_generated.
+
+(* the member metadata blob of JoinGroup: groupMetadata.readFrom *)
+Theorem C04_conn_group_metadata_roundtrip : forall w,
+  Legacy.wt ConnReaders.t_group_metadata w -> forall sz rest,
+  (Z.of_nat (length (Legacy.enc ConnReaders.t_group_metadata w)) <= sz)%Z ->
+  ConnReaders.read_group_metadata sz (Legacy.enc ConnReaders.t_group_metadata w ++ rest)
+  = (inl (Legacy.dec_val ConnReaders.t_group_metadata w),
+     (sz - Z.of_nat (length (Legacy.enc ConnReaders.t_group_metadata w)))%Z, rest).
+Proof. exact ConnReadersProofs.group_metadata_roundtrip. Qed.
+Print Assumptions C04_conn_group_metadata_roundtrip.
+
+(* the member assignment blob of SyncGroup: groupAssignment.readFrom -> readMapStringInt32.  The
+   result is the encoded value with its topic -> partitions entries as a Go map holds them
+   ([assignment_of]: a later entry of the same topic replaces the earlier one; every partition
+   list is the one encoded for ITS topic) *)
+Theorem C04_conn_group_assignment_roundtrip : forall w,
+  Legacy.wt ConnReaders.t_group_assignment w -> forall sz rest,
+  (Z.of_nat (length (Legacy.enc ConnReaders.t_group_assignment w)) <= sz)%Z ->
+  ConnReaders.read_group_assignment sz (Legacy.enc ConnReaders.t_group_assignment w ++ rest)
+  = (inl (ConnReadersProofs.assignment_of (Legacy.dec_val ConnReaders.t_group_assignment w)),
+     (sz - Z.of_nat (length (Legacy.enc ConnReaders.t_group_assignment w)))%Z, rest).
+Proof. exact ConnReadersProofs.group_assignment_roundtrip. Qed.
+Print Assumptions C04_conn_group_assignment_roundtrip.
+
+(* with distinct topics the map is the list of entries that was encoded *)
+Theorem C04_conn_assignment_distinct_topics : forall es,
+  NoDup (map fst es) -> ConnReaders.map_of_entries es = es.
+Proof. exact ConnReadersProofs.map_of_entries_nodup. Qed.
+Print Assumptions C04_conn_assignment_distinct_topics.
+
+(* non-vacuity: the assignment {orders: [0 1 2], payments: [7 8], audit: [5]} with null user data *)
+Definition ex_conn_assignment : Legacy.wval :=
+  Legacy.WP (Legacy.WZ 0%Z)
+   (Legacy.WP (Legacy.WL (Some
+      [Legacy.WP (Legacy.WS (Some [111; 114; 100; 101; 114; 115]%N))
+                 (Legacy.WL (Some [Legacy.WZ 0%Z; Legacy.WZ 1%Z; Legacy.WZ 2%Z]));
+       Legacy.WP (Legacy.WS (Some [112; 97; 121; 109; 101; 110; 116; 115]%N))
+                 (Legacy.WL (Some [Legacy.WZ 7%Z; Legacy.WZ 8%Z]));
+       Legacy.WP (Legacy.WS (Some [97; 117; 100; 105; 116]%N)) (Legacy.WL (Some [Legacy.WZ 5%Z]))]))
+      (Legacy.WS None)).
+Example C04_conn_assignment_example :
+  ConnReaders.read_group_assignment 71%Z (Legacy.enc ConnReaders.t_group_assignment ex_conn_assignment ++ [9]%N)
+  = (inl (Legacy.VP (Legacy.VZ 0%Z)
+           (Legacy.VP (Legacy.VL
+              [Legacy.VP (Legacy.VB [111; 114; 100; 101; 114; 115]%N) (Legacy.VL [Legacy.VZ 0%Z; Legacy.VZ 1%Z; Legacy.VZ 2%Z]);
+               Legacy.VP (Legacy.VB [112; 97; 121; 109; 101; 110; 116; 115]%N) (Legacy.VL [Legacy.VZ 7%Z; Legacy.VZ 8%Z]);
+               Legacy.VP (Legacy.VB [97; 117; 100; 105; 116]%N) (Legacy.VL [Legacy.VZ 5%Z])])
+              (Legacy.VB []))), 0%Z, [9]%N).
+Proof. vm_compute. reflexivity. Qed.
